@@ -266,16 +266,20 @@ func (CodecJSON) Name() string { return "json" }
 
 type codecHTTPBody struct{}
 
+// errHTTPBodyCodec is returned by the message methods of codecHTTPBody, which
+// only frames raw bytes (see ReadNext/WriteNext).
+var errHTTPBodyCodec = fmt.Errorf("google.api.HttpBody codec cannot marshal messages")
+
 func (codecHTTPBody) Marshal(v interface{}) ([]byte, error) {
-	panic("not implemented")
+	return nil, errHTTPBodyCodec
 }
 
 func (codecHTTPBody) MarshalAppend(b []byte, v interface{}) ([]byte, error) {
-	panic("not implemented")
+	return nil, errHTTPBodyCodec
 }
 
 func (codecHTTPBody) Unmarshal(data []byte, v interface{}) error {
-	panic("not implemented")
+	return errHTTPBodyCodec
 }
 
 func (codecHTTPBody) Name() string { return "body" }
